@@ -42,6 +42,8 @@ type Ctx struct {
 	mu       sync.Mutex
 	typeIDs  map[string]int
 	typeList []types.Type
+	typeByIDm map[int]types.Type
+	funcIDtaken map[int]bool
 	funcIDs  map[*ssa.Function]int
 	funcs    map[string]*ssa.Function
 	ws       map[*ssa.Function]map[string]bool
@@ -354,6 +356,18 @@ func (ctx *Ctx) synthContract(fn *ssa.Function) *Contract {
 	return c
 }
 
+// Type and function identifiers are derived from the names (FNV hash, linear probing on the rare collision), not from the
+// order of first use: the generated queries are then textually identical from run to run, which the content-addressed
+// cache of discharged queries relies on.
+func stableHash(s string) int {
+	h := uint32(2166136261)
+	for i := 0; i < len(s); i++ {
+		h ^= uint32(s[i])
+		h *= 16777619
+	}
+	return int(h & 0x3fffffff)
+}
+
 func (ctx *Ctx) typeIDOf(t types.Type) int {
 	k := typeKeyFull(t)
 	ctx.mu.Lock()
@@ -361,19 +375,25 @@ func (ctx *Ctx) typeIDOf(t types.Type) int {
 	if id, ok := ctx.typeIDs[k]; ok {
 		return id
 	}
-	id := len(ctx.typeIDs) + 1
+	if ctx.typeByIDm == nil {
+		ctx.typeByIDm = map[int]types.Type{}
+	}
+	id := 1 + stableHash(k)
+	for {
+		if _, taken := ctx.typeByIDm[id]; !taken {
+			break
+		}
+		id++
+	}
 	ctx.typeIDs[k] = id
-	ctx.typeList = append(ctx.typeList, t)
+	ctx.typeByIDm[id] = t
 	return id
 }
 
 func (ctx *Ctx) typeByID(id int) types.Type {
 	ctx.mu.Lock()
 	defer ctx.mu.Unlock()
-	if id >= 1 && id <= len(ctx.typeList) {
-		return ctx.typeList[id-1]
-	}
-	return nil
+	return ctx.typeByIDm[id]
 }
 
 func (ctx *Ctx) funcID(fn *ssa.Function) int {
@@ -382,7 +402,14 @@ func (ctx *Ctx) funcID(fn *ssa.Function) int {
 	if id, ok := ctx.funcIDs[fn]; ok {
 		return id
 	}
-	id := 1<<40 + len(ctx.funcIDs) + 1
+	if ctx.funcIDtaken == nil {
+		ctx.funcIDtaken = map[int]bool{}
+	}
+	id := 1<<40 + stableHash(fn.String()+"@"+ctx.fset.Position(fn.Pos()).String())
+	for ctx.funcIDtaken[id] {
+		id++
+	}
+	ctx.funcIDtaken[id] = true
 	ctx.funcIDs[fn] = id
 	return id
 }
